@@ -104,16 +104,21 @@ def step (_ : Unit) (j : Json) : Unit × Json :=
       let entries := (arrF j "tree").map (fun e =>
         let a := arr e
         ((nat (a.getD 0 Json.null), nat (a.getD 1 Json.null)), entryOf (a.getD 2 Json.null)))
-      let t := ofList entries
       let ks1 := (arrF j "ks1").map keyOf
       let ks2 := (arrF j "ks2").map keyOf
-      let t' := fixTree (boolF j "fix") (boolF j "cleanup") ks1 ks2 t
       let univ := dedupKeys (entries.map (·.1) ++ entries.filterMap (fun e => match e.2 with
         | .dir _ (.ok nk) => some nk
         | .link g => some g
         | _ => none) ++ ks1 ++ ks2)
-      Json.mkObj [("tree", Json.arr (univ.filterMap (fun k => (t' k).map (fun e =>
-        Json.arr #[(k.1 : Json), (k.2 : Json), entryJ e]))).toArray)]
+      -- `fixTree` is the fold of `step1` / `step2`; a `Tree` is a function, so the driver tabulates the tree on the
+      -- key universe after every step (all keys a step can touch are in it) instead of nesting closures
+      let tab (t : Tree) : List (Key × Entry) := univ.filterMap (fun k => (t k).map (fun e => (k, e)))
+      let fx := boolF j "fix"
+      let cl := boolF j "cleanup"
+      let l1 := if cl then ks1.foldl (fun l k => tab (step1 (ofList l) k)) entries else entries
+      let l2 := ks2.foldl (fun l k => tab (step2 fx cl (ofList l) k)) l1
+      Json.mkObj [("tree", Json.arr (l2.map (fun (k, e) =>
+        Json.arr #[(k.1 : Json), (k.2 : Json), entryJ e])).toArray)]
     | op => Json.mkObj [("error", Json.str s!"bad-op {op}")]
   ((), out)
 
